@@ -202,7 +202,7 @@ def r1(R1, cfg, F):
         if rows is None:
             R1.bad(cfg, b.path, 'row-missing:%s(%s)' % (kd, sb), 'no arm handles EventKind::%s(%s)' % (kd, sb), b.loc())
             continue
-        some = rows.get('Some') or rows.get('*') or set()
+        some = set(rows.get('Some', set())) | set(rows.get('*', set()))     # every way the arm can emit when a parent exists (or is not asked for)
         none = rows.get('None')
         if not want:
             ok = all(x == frozenset(['<no-event>']) for alts in rows.values() for x in alts)
